@@ -57,8 +57,13 @@ func buildTravTree() *travTree {
 	var hl []dagpb.PBLink
 	for i := 0; i < 4; i++ {
 		name := "x" + string(rune('0'+i))
+		target := fakeLink(60 + i)
+		if i == 3 {
+			name = "7" // a name that parses as an integer, pointing at the stored file b
+			target = lb
+		}
 		t.hEntries = append(t.hEntries, name)
-		e, _ := builder.BuildUnixFSDirectoryEntry(name, 1, fakeLink(60+i))
+		e, _ := builder.BuildUnixFSDirectoryEntry(name, 1, target)
 		hl = append(hl, e)
 	}
 	lh, sh, err := builder.BuildUnixFSShardedDirectory(8, hamt.HashMurmur3, hl, ls)
@@ -75,15 +80,21 @@ func buildTravTree() *travTree {
 	for _, b := range blocks {
 		t.keysA = append(t.keysA, b.key)
 	}
-	// shard blocks of h below its root
-	nd, _ := ls.Load(ipld.LinkContext{}, lh, dagpb.Type.PBNode)
-	links := nd.(dagpb.PBNode).FieldLinks()
-	for i := int64(0); i < links.Length(); i++ {
-		l := links.Lookup(i)
-		if len(l.FieldName().Must().String()) == 1 {
-			t.keysH = append(t.keysH, l.FieldHash().Link().Binary())
+	// shard blocks of h below its root (all levels)
+	var walkShards func(l datamodel.Link)
+	walkShards = func(l datamodel.Link) {
+		nd, err := ls.Load(ipld.LinkContext{}, l, dagpb.Type.PBNode)
+		verifrt.Assert(err == nil, "harness:shard-loads")
+		links := nd.(dagpb.PBNode).FieldLinks()
+		for i := int64(0); i < links.Length(); i++ {
+			c := links.Lookup(i)
+			if len(c.FieldName().Must().String()) == 1 {
+				t.keysH = append(t.keysH, c.FieldHash().Link().Binary())
+				walkShards(c.FieldHash().Link())
+			}
 		}
 	}
+	walkShards(lh)
 	st.Loads = nil
 	return t
 }
@@ -99,6 +110,8 @@ func VerifPathTraversal() {
 		kind   int      // 0 dir, 1 file a, 2 file b, 3 hamt, -1 absent
 		nsegs  int
 		absent bool
+		// the path runs through the HAMT: its sub-shards may be fetched on the way
+		viaShards bool
 	}
 	cases := []pcase{
 		{path: "", keys: []string{t.keyRoot}, kind: 0},
@@ -106,6 +119,7 @@ func VerifPathTraversal() {
 		{path: "/d//b/", keys: []string{t.keyRoot, t.keyD, t.keyB}, kind: 2, nsegs: 2},
 		{path: "d", keys: []string{t.keyRoot, t.keyD}, kind: 0, nsegs: 1},
 		{path: "h", keys: []string{t.keyRoot, t.keyH}, kind: 3, nsegs: 1},
+		{path: "h/7", keys: []string{t.keyRoot, t.keyH, t.keyB}, kind: 2, nsegs: 2, viaShards: true},
 		{path: "nope", keys: []string{t.keyRoot}, absent: true, nsegs: 1},
 		{path: "d/zz", keys: []string{t.keyRoot, t.keyD}, absent: true, nsegs: 2},
 		{path: "a/..", keys: []string{t.keyRoot, t.keyA}, absent: true, nsegs: 2},
@@ -141,6 +155,7 @@ func VerifPathTraversal() {
 		return unixfsnode.BytesConsumingMatcher(p, n)
 	})
 	verifrt.Assert(err == nil, "walk:no-error")
+	first := firstRequests(t.st) // before the assertions below touch the matched nodes
 	// labels of the matchPath=true variant are kept apart (see known_findings.json)
 	mp := ""
 	if matchPath {
@@ -190,10 +205,14 @@ func VerifPathTraversal() {
 		verifrt.Reach("absent")
 	}
 	// blocks: the path's blocks are requested root-to-target, nothing off the path
-	first := firstRequests(t.st)
 	onPath := map[string]bool{}
 	for _, k := range c.keys {
 		onPath[k] = true
+	}
+	if c.viaShards {
+		for _, k := range t.keysH {
+			onPath[k] = true
+		}
 	}
 	entity := map[string]bool{}
 	if !c.absent {
@@ -209,6 +228,20 @@ func VerifPathTraversal() {
 		}
 	}
 	for _, k := range first {
+		if !(onPath[k] || entity[k]) {
+			nm := "?"
+			switch k {
+			case t.keyA:
+				nm = "a"
+			case t.keyB:
+				nm = "b"
+			case t.keyD:
+				nm = "d"
+			case t.keyH:
+				nm = "h"
+			}
+			verifrt.Event("off-path block requested: " + nm)
+		}
 		verifrt.Assert(onPath[k] || entity[k], "loads:only-path-and-entity-blocks"+mp)
 	}
 	// path blocks below the root appear in root-to-target order
